@@ -123,6 +123,32 @@ def run_history(ctx, exe, T, steps, wd):
     return "no-result rc=%s %s" % (rc, (out + err)[-200:].replace("\n", " "))
 
 
+# ------------------------------------------------------------------ giant loops (top binades of the 32-bit index types)
+def gen_giant(ctx, backend):
+    """(type, n, B) with B = 0 for parallel_for, 64 for parallel_in_blocks_of<64>; trivial body, exact bitmap oracle in the
+    harness.  Sized per backend by its measured throughput (TBB / internal ~1e9 indices/s on 16 threads, Debug 1e8/s serial,
+    OpenMP schedule(dynamic) 1e7/s); the internal backend stops at INT_MAX (above is the open finding)."""
+    r = ctx.rng("giant/" + backend)
+    U, I = 2**32 - 1, 2**31 - 1
+    if backend == "tbb":
+        cs = [("u", 3 * 10**8, 0), ("u", U, 0), ("i", 3 * 10**8, 0), ("i", I, 0), ("u", U, 64)]
+        pool = [("u", 2**31 + 1, 0), ("u", 2**31 - 1, 0), ("u", 3 * 2**30 + 5, 0), ("u", U - 1, 0), ("i", I - 1, 0), ("i", 2**30 + 1, 0),
+                ("i", I, 64), ("u", 2**31 + 1, 64)] + [(t, 2**k + 1, b) for k in range(24, 31) for t in "ui" for b in (0, 64)]
+    elif backend == "internal":
+        cs = [("u", 3 * 10**8, 0), ("i", I, 0), ("u", I, 64)]
+        pool = [("u", I, 0), ("i", I - 1, 0), ("i", 2**30 + 1, 0), ("i", I, 64)] + [(t, 2**k + 1, b) for k in range(24, 31) for t in "ui" for b in (0, 64)]
+    elif backend == "debug":
+        cs = [("u", 3 * 10**8, 0), ("i", 2**26 + 1, 64)]
+        pool = [(t, 2**k + 1, b) for k in range(24, 28) for t in "ui" for b in (0, 64)]
+    else:
+        cs = [("u", 2**24 + 1, 0), ("i", 2**24 + 3, 64)]
+        pool = [(t, 2**k + 1, b) for k in range(20, 24) for t in "ui" for b in (0, 64)]
+    cs += r.sample(pool, ctx.pick(1, min(len(pool), 8)))
+    cs = sorted(set(cs), key=lambda c: (c[1], c[2], c[0]))   # ascending: under the time box (see harness) the largest go first
+    budget = ctx.pick(25000, 240000)
+    return [("G", dict(type=t, n=n, B=b), "%s %d %d %d" % (t, n, b, budget)) for (t, n, b) in cs]
+
+
 # ------------------------------------------------------------------ case grid
 def gen_cases(ctx, backend, T):
     r = ctx.rng("cases/%s/%d" % (backend, T))
@@ -403,8 +429,12 @@ def run_rest(ctx, res):
     groups = [(b, T) for b in BACKENDS for T in Ts if not (b == "debug" and T != 1)]
     gcases = {g: gen_cases(ctx, g[0], g[1]) for g in groups}
     ctx.log("running %d harness processes, %d cases" % (len(groups), sum(len(v) for v in gcases.values())))
+    giant = {b: gen_giant(ctx, b) for b in BACKENDS}
     with ThreadPoolExecutor(max_workers=4) as ex:
+        gfut = [ex.submit(run_group, ctx, exe[b], b, 16, giant[b], wd) for b in ("tbb", "internal")]
         outs = list(ex.map(lambda g: run_group(ctx, exe[g[0]], g[0], g[1], gcases[g], wd), groups))
+        gfut += [ex.submit(run_group, ctx, exe[b], b, 16, giant[b], wd) for b in ("debug", "omp")]
+        gouts = dict(zip(("tbb", "internal", "debug", "omp"), [f.result() for f in gfut]))
 
     ctx.log("harness runs finished")
     # ---------------------------------------------------------------- model lines for every case
@@ -562,6 +592,44 @@ def run_rest(ctx, res):
                 nmis += 1
                 ctx.broken.append("correspondence C01 model vs %s T=%d on %s %s: impl=%r model=%r (impl satisfies the property oracle)"
                                   % (b, T, c[0], spec, obs_cmp[:200], mline[:200]))
+    # giant loops: exact oracle cnt = n, no index twice, none missing; a failure is shrunk along the binades
+    for b, (results, fatals, notrun) in gouts.items():
+        bad = []
+        for k, c in enumerate(giant[b]):
+            if k in results and results[k] == "skipped-timebox":
+                ctx.cov["giant_skipped_timebox_" + b] = ctx.cov.get("giant_skipped_timebox_" + b, 0) + 1
+                continue
+            if k in results:
+                ctx.count(1)
+                hist["G:" + b] = hist.get("G:" + b, 0) + 1
+                ctx.nontriv(["G", b, c[1]])
+                if results[k] != "cnt=%d ok" % c[1]["n"]:
+                    bad.append((c, results[k]))
+        for (k, kind, err) in fatals:
+            if k is not None:
+                bad.append((giant[b][k], kind.split("\n")[0][:300]))
+        if notrun:
+            ctx.cov["giant_not_run_" + b] = len(notrun)
+        if bad:
+            c, obs = min(bad, key=lambda x: x[0][1]["n"])
+            ty, B = c[1]["type"], c[1]["B"]
+            small = None
+            for kk in range(16, 33):                       # smallest failing binade, each in a fresh process
+                n2 = 2**kk + 1
+                if n2 >= c[1]["n"] or n2 > TYPES[ty][1]:
+                    break
+                r2, f2, _ = run_group(ctx, exe[b], b, 16, [("G", dict(type=ty, n=n2, B=B), "%s %d %d 0" % (ty, n2, B))], wd)
+                o2 = r2.get(0) or (f2[0][1] if f2 else "no output")
+                if o2 != "cnt=%d ok" % n2:
+                    small = (n2, o2)
+                    break
+            n_rep, o_rep = small if small else (c[1]["n"], obs)
+            add_violation((b, "G"), n_rep,
+                          "%s backend, initTaskingSystem(16): %s over index type %s with n=%d (trivial body, one bit per index): observed '%s', "
+                          "required 'cnt=%d ok'" % (b, "parallel_for" if B == 0 else "parallel_in_blocks_of<%d>" % B,
+                                                     {"u": "unsigned", "i": "int"}[ty], n_rep, o_rep[:300], n_rep),
+                          {"backend": b, "T": 16, "kind": "G", "case": {"type": ty, "n": n_rep, "B": B}, "harness_line": "G x %s %d %d" % (ty, n_rep, B),
+                           "observed": o_rep, "required": "cnt=%d ok" % n_rep, "first_seen_at": c[1], "first_seen_observed": obs})
     # witnesses found by evaluating the regenerated parallel_foreach: confirm on the real code (sparse mapping, TBB, 16 threads)
     for dist in [x for x in getattr(ctx, "foreach_suspects", []) if 0 < x <= 2**33][:4]:
         results, fatals, notrun = run_group(ctx, exe["tbb"], "tbb", 16, [("M", dict(distance=dist), "%d" % dist)], wd)
@@ -618,7 +686,8 @@ def run_rest(ctx, res):
     ctx.cov["grid"] = {"n": "-2^31,-7,-1,0,1,2,T-1,T,T+1,255,256,257,4095,1e5,1e6 (clipped to the type)", "types": list(TYPES),
                        "T": Ts, "depth": [0, 1, 2], "cost": ["uniform", "uneven (slow first/last index, seeded spins)"],
                        "block_sizes": BSIZES, "backends": BACKENDS,
-                       "foreach_sparse_distance": 2**31 + 64}
+                       "foreach_sparse_distance": 2**31 + 64,
+                       "giant_loops": {b: [c[2] for c in giant[b]] for b in BACKENDS}}
     ctx.rule = ("one evaluation = one loop execution (parallel_for at nesting depth 0-2 / parallel_in_blocks_of / parallel_foreach / a recorded "
                 "enkiTS task set) on one backend and thread count, judged by the property oracle; non-trivial = a parallel_for with n>=2 "
                 "whose indices were executed by >=2 distinct threads (measured from the per-index thread record), a block run with >=2 "
